@@ -288,7 +288,8 @@ impl PrimaryBlock {
         }
 
         let now = crate::dtn_time_now();
-        self.creation_timestamp.dtntime() + (self.lifetime.as_millis() as u64) <= now
+        // compared in u128, the sum may exceed the u64 range
+        u128::from(self.creation_timestamp.dtntime()) + self.lifetime.as_millis() <= u128::from(now)
     }
     pub fn validate(&self) -> Result<(), ErrorList> {
         let mut errors: ErrorList = Vec::new();
